@@ -12,7 +12,7 @@ namespace MahfModel.Boundary
 
 section Repair
 variable {F : Type} [Add F] [Sub F] [Mul F] [Div F] [LT F] [LE F] [DecidableLT F] [DecidableLE F]
-  [OfNat F 0] [OfNat F 1]
+  [OfNat F 0] [OfNat F 1] [OfNat F 3]
 
 /-- `izip!(solution, problem.domain())`: the operator is applied to the coordinates that have a
 domain entry; the solution is edited in place, so surplus coordinates stay. -/
@@ -60,14 +60,15 @@ def mirrorIter (a b : F) : Nat → F → F
 
 def mirror (fuel : Nat) (x : F) (dom : F × F) : Option F := mirrorLoop dom.1 dom.2 fuel x
 
-/-- `CompleteOneTailedNormalCorrection` on one coordinate: the loop consumes the scripted absolute
-normal deviates one per pass; returns the repaired value and the unread rest of the script,
-`none` when the script runs out before the loop exits. -/
+/-- `CompleteOneTailedNormalCorrection` on one coordinate: `dist = Normal::new(0, (b - a) / 3)` is
+built per coordinate and `dist.sample(rng).abs()` is `(b - a) / 3 * |z|` for a standard-normal `z`.
+The loop consumes the scripted absolute standard-normal deviates `|z|` one per pass; returns the
+repaired value and the unread rest of the script, `none` when the script runs out first. -/
 def oneTailedLoop (a b : F) : List F → F → Option (F × List F)
   | [], v => if v < a ∨ v > b then none else some (v, [])
   | s :: rest, v =>
-    if v < a then oneTailedLoop a b rest (a + s)
-    else if v > b then oneTailedLoop a b rest (b - s)
+    if v < a then oneTailedLoop a b rest (a + (b - a) / 3 * s)
+    else if v > b then oneTailedLoop a b rest (b - (b - a) / 3 * s)
     else some (v, s :: rest)
 
 /-- A whole solution: coordinates left to right share one script. -/
@@ -121,8 +122,8 @@ def intoIndividuals {σ : Type} (sols : List σ) : List (Ind σ) := sols.map fun
 /-- `Empty`: pushes an empty population. -/
 def initEmpty {σ : Type} (stack : List (List (Ind σ))) : List (List (Ind σ)) := stack ++ [[]]
 
-/-- `random_spread(domain, n, rng)`: `draw i j` is what the `j`-th `gen_range(domain[j])` of the
-`i`-th individual returned. -/
+/-- `random_spread(domain, n, rng)`: `draw i j` is what the `gen_range(domain[j])` call for
+coordinate `j` of the `i`-th individual returned (one call per coordinate, with THAT coordinate's range). -/
 def randomSpread {F : Type} (dom : List (F × F)) (n : Nat) (draw : Nat → Nat → F) : List (List F) :=
   (List.range n).map fun i => (List.range dom.length).map fun j => draw i j
 
